@@ -6,9 +6,15 @@ j=s.index('### 8.5 Detection of the real defects')
 t=subprocess.run(['/venv/bin/python','/verif/tools_seeded.py','table','--md'],capture_output=True,text=True,cwd='/verif').stdout
 metas=[json.load(open(f)) for f in sorted(glob.glob('/verif/seeded/*/meta.json'))]
 n=len(metas)
-rechecked=[m for m in metas if 'recheck' in m]
-ok=[m for m in rechecked if m['recheck']['exit']==1]
-bad=[m['id'] for m in rechecked if m['recheck']['exit']!=1]
+def last_exit(m):
+    # the latest evaluation against the quick check: the final detection run where there is one, otherwise the confirmation run
+    # (waves 8 and 9: re-run only where the check changed after the confirmation)
+    if 'recheck' in m:
+        return m['recheck']['exit']
+    return m.get('ran',{}).get('check_exit')
+rechecked=[m for m in metas if last_exit(m) is not None]
+ok=[m for m in rechecked if last_exit(m)==1]
+bad=[m['id'] for m in rechecked if last_exit(m)!=1]
 cross=[m for m in metas if 'cross' in m]
 new='''### 8.4 Which check catches which seeded change
 %d deliberately property-breaking changes (six per property, nine for the eleven properties whose checks do not need the pipeline exploration) were written by independent sub-agents that were given
@@ -21,7 +27,8 @@ still passes with the change (248 passed; a first attempt that hit the suite's o
 `tests/test_methane_scp.py` was repeated and is recorded), and the property's *quick* check was then run against the
 changed tree (`tools_seeded.py confirm`, `VERIF_REPO`).
 
-**Final detection run** (`tools_seeded.py recheck`, every change against the quick check of its property as committed):
+**Latest detection run** (`tools_seeded.py recheck` for waves 1-7 and for every change of waves 8-9 whose check was strengthened after its
+confirmation; the confirmation run itself for the others, whose checks have only grown since):
 %d of %d re-evaluated changes are reported (exit 1 with a VIOLATION line)%s.
 
 **45 of the 141 were missed at first** (41 silently, three as a harness error, one by a check that deliberately left the clause
